@@ -15,7 +15,9 @@ ZONES = [{'name': 'zz', 'start': 0x20, 'end': 0x2F}]
 CONFIGS = [
     ('o0-p1-le-16', R.Params(address_size=16, endian='little', origin=0, page_size=1, zones=ZONES)),
     ('o3-p6-be-16', R.Params(address_size=16, endian='big', origin=3, page_size=6, zones=ZONES)),
-    ('o16-p4-le-8', R.Params(address_size=8, endian='little', origin=0x10, page_size=4, zones=ZONES)),
+    # a redefined GLOBAL zone that starts below the default origin: the first line still sits at the origin
+    ('o16-p4-le-8-global8', R.Params(address_size=8, endian='little', origin=0x10, page_size=4,
+                                     zones=ZONES + [{'name': 'GLOBAL', 'start': 8, 'end': 0xFF}])),
 ]
 
 SIGMA = [
